@@ -35,3 +35,12 @@ add("C20",
     "real-number model of floats; exp/log axioms are true facts about the real functions (unsat is sound; sat answers are replayed "
     "in floats, stability counterexamples with inputs of magnitude 1e6); group sizes <= 6",
     "DESIGN.md section 7 C20")
+add("C16",
+    "Constructors: CrossHair on the real LinspaceGrid/LogspaceGrid/DiscreteGrid constructors with symbolic float bounds (nan, "
+    "+-inf modelled), symbolic sizes and arguments of every kind: accepted grids have finite, ordered bounds and a positive int "
+    "size (log: positive start), valid arguments are accepted, only GridInitializationError is raised; DiscreteGrid accepted iff "
+    "the field values are numerically 0,1,2,... Materialisation: symbolic execution of Grid.to_jax with symbolic start<stop: n "
+    "values, first == start, last == stop, strictly increasing, equally spaced (linear / log scale).",
+    "CrossHair per-condition timeout 90 s (Confirmed over all paths + refuted reachability twin); small ints passed as bool tuples; "
+    "materialisation n_points 1..9, real-number model of floats, exp/log axiomatised",
+    "DESIGN.md section 7 C16", technique="CrossHair (symbolic execution of Python + z3) on the constructors; symbolic execution of the JAX materialisation + z3", engine="symjax+crosshair")
